@@ -4,7 +4,7 @@
     only when not errored) and the exit status of genCmd/checkCmd.  Process exit
     and file-system effects are runtime behaviour: they are observed by running
     the real binary on every fault placement, and compared with the model. *)
-From Verif Require Import Model.Driver Proofs.DriverFacts.
+From Verif Require Import Model.Driver Proofs.DriverFacts Model.CompileFiles Proofs.CompileFilesFacts.
 Open Scope string_scope.
 Open Scope list_scope.
 
@@ -40,3 +40,20 @@ Example C12_example :
   /\ rr_output (generate true [Good [("a/db.go", "x")]; GenFail; Good [("c/db.go", "y")]]) = None
   /\ rr_output (generate true [Good [("a/db.go", "x")]; Good [("c/db.go", "y")]]) = Some [("a/db.go", "x"); ("c/db.go", "y")].
 Proof. vm_compute. repeat split. Qed.
+
+(** ** inside one package: a failing statement in ANY query file, at ANY position,
+    makes parseQueries fail (Model/CompileFiles.v compile_queries - the package is
+    then ParseFail in the loop above and nothing is written), whatever the other
+    files and the statements after it are; and an accepted package had no
+    diagnostic in any file. *)
+Theorem C12_fault_in_any_file_fails_package : forall e p name src stmts m raw fs1 fs2,
+  parse_query e raw src p = Err m -> In raw stmts ->
+  compile_queries e p (fs1 ++ (name, src, stmts) :: fs2) = Err "multierr".
+Proof. exact failing_statement_fails_package. Qed.
+Print Assumptions C12_fault_in_any_file_fails_package.
+
+Theorem C12_accepted_package_has_no_diagnostic : forall e p files qs,
+  compile_queries e p files = Ok qs ->
+  diagnostics (parse_files e p files []) = [] /\ qs = queries_of (parse_files e p files []) /\ qs <> [].
+Proof. exact accepted_no_diagnostics. Qed.
+Print Assumptions C12_accepted_package_has_no_diagnostic.
